@@ -53,7 +53,7 @@ TDisp ==
        /\ Line.sz = PSize(e.pid)
        /\ UsesDraw(st[e.lp].s, e.ty) = (Line.u16 >= 0)
        /\ Dispatch(e, IF Line.u16 >= 0 THEN Line.u16 ELSE 0)
-       /\ exp' = Sends(e.lp, st[e.lp], e.t, e.ty, IF Line.u16 >= 0 THEN Line.u16 ELSE 0)
+       /\ exp' = Sends(e.lp, st[e.lp], e.t, e.ty, e.pid, IF Line.u16 >= 0 THEN Line.u16 ELSE 0)
   /\ st'[Line.lp] = [s |-> Line.s, cnt |-> Line.cnt]
   /\ (Line.pred = 1) = Pred(Line.lp, st'[Line.lp])
   /\ cur' = Line.lp
